@@ -92,12 +92,29 @@ def replay(case):
             out = scared.aes.selection_functions.encrypt.FirstSubBytes(words=sel)(plaintext=pt)
             exp = full if sel is None or sel is Ellipsis else full[:, :, sel]
             return dict(reproduced=out.shape != exp.shape or not np.array_equal(out, exp))
+        if k == 'reuse':
+            r = reuse_check(rnd)
+            return dict(reproduced=bool(r), detail=r)
         if k == 'tags':
             r = tags_check(rnd)
             return dict(reproduced=bool(r), detail=r)
     except Exception as e:
         return dict(reproduced=True, detail='raises %r' % (e,))
     return dict(reproduced=None)
+
+def reuse_check(rnd):
+    """an array returned by a call must still hold its values after later calls of the same shape"""
+    import scared
+    for ns, w, names in (('aes', 16, ['FirstAddRoundKey', 'LastAddRoundKey', 'FirstSubBytes', 'LastSubBytes', 'DeltaRLastRounds']), ('des', 8, ['FirstAddRoundKey', 'FirstSboxes'])):
+        mod = getattr(scared, ns).selection_functions.encrypt
+        for a in names:
+            for b in names:
+                fa, fb = getattr(mod, a)(), getattr(mod, b)()
+                ta = 'plaintext' if 'First' in a else 'ciphertext'; tb = 'plaintext' if 'First' in b else 'ciphertext'
+                x1 = np.array([[rnd.randrange(256) for _ in range(w)] for _ in range(3)], dtype='uint8'); x2 = np.array([[rnd.randrange(256) for _ in range(w)] for _ in range(3)], dtype='uint8')
+                o1 = fa(**{ta: x1}); keep = o1.copy(); fb(**{tb: x2}); fa(**{ta: x2})
+                if not np.array_equal(o1, keep): return '%s.%s: the array returned by a call changed after a later call of %s' % (ns, a, b)
+    return None
 
 def tags_check(rnd):
     """extra metadata fields (also ones called data / key / plaintext) must not change hypotheses nor the expected key"""
@@ -122,6 +139,10 @@ def bounded(seed, tier):
     except Exception as e: r = 'raises %r' % (e,)
     ev += 12
     if r: fails.append(dict(kind='tags', detail=r))
+    try: r = reuse_check(rnd)
+    except Exception as e: r = 'raises %r' % (e,)
+    ev += 29
+    if r: fails.append(dict(kind='reuse', detail=r))
     aes_cls = {'encrypt': ['FirstAddRoundKey', 'LastAddRoundKey', 'FirstSubBytes', 'LastSubBytes', 'DeltaRLastRounds'], 'decrypt': ['FirstAddRoundKey', 'LastAddRoundKey', 'FirstSubBytes', 'LastSubBytes', 'DeltaRFirstRounds']}
     des_cls = ['FirstAddRoundKey', 'LastAddRoundKey', 'FirstSboxes', 'LastSboxes', 'FeistelRFirstRounds', 'FeistelRLastRounds', 'DeltaRFirstRounds', 'DeltaRLastRounds']
     reps = 1 if tier == 'quick' else 5
